@@ -176,6 +176,13 @@ class Heap:
         def _imports():
             m, has = heap.smap(tag + "_imports", lambda k: SStr(z3.Function(tag + "_imports_get", StrS, StrS)(zstr(k))))
             return m
+        def opt_int(field):
+            def mk(P_, o_):
+                g = z3.Bool(f"{tag}_{field}_none")
+                return SUnion([(g, None), (z3.Not(g), SInt(z3.Int(f"{tag}_{field}")))])
+            return mk
+        for f_ in ("lineno", "endlineno", "alias_lineno", "alias_endlineno"):
+            o.lazy[f_] = opt_int(f_)
         o.lazy["exports"] = lambda P_, o_: None
         o.lazy["public"] = lambda P_, o_: None
         o.lazy["inherited"] = lambda P_, o_: False
